@@ -41,6 +41,20 @@ with open(os.path.join(VERIF, "seeded", "INDEX.md"), "w") as fh:
     fh.write("| id | confirmed | caught by quick check of | first failing check (job) | change |\n|---|---|---|---|---|\n")
     for r in rows:
         fh.write("| %s | %s | %s | %s | %s |\n" % r)
+    ext = sorted(glob.glob(os.path.join(VERIF, "seeded", "EXT-*")))
+    if ext:
+        fh.write("\nChanges delivered by the sub-agents that break no listed property (their authors said so); the checks report them as `EXT` notes, exit 0:\n\n| id | change | note printed by |\n|---|---|---|\n")
+        for d in ext:
+            try:
+                a = json.load(open(os.path.join(d, "agent_meta.json")))
+            except Exception:
+                a = {}
+            note = ""
+            try:
+                note = open(os.path.join(d, "note.txt")).read().strip()
+            except Exception:
+                pass
+            fh.write("| %s | %s | %s |\n" % (os.path.basename(d), (a.get("summary", "") or "")[:200].replace("|", "/").replace("\n", " "), note))
     n = len(rows); c = sum(1 for r in rows if r[2] != "-")
     fh.write("\n%d seeded changes, %d caught by the quick tier of the targeted property's check (after the strengthenings recorded in DESIGN.md section 12).\n" % (n, c))
 print(open(os.path.join(VERIF, "seeded", "INDEX.md")).read()[-400:])
